@@ -40,6 +40,7 @@ type c20Gen struct {
 	xnil             bool   // symbolic
 	flags            []bool // symbolic values of the opaque conditions, in order of appearance
 	nConds, nResults int    // sizes of the condition / result alphabets (prefixes of the lists below)
+	nStmts           int    // how many statement forms are enabled (prefix of: return, if/else, if, conditional assignment, if/else assignment)
 }
 
 func (g *c20Gen) line(indent int, s string) {
@@ -72,7 +73,7 @@ func (g *c20Gen) cond(ynil bool) (string, bool) {
 func (g *c20Gen) stmt(depth, indent int, ynil bool) bool {
 	kind := 0
 	if depth > 0 {
-		kind = ndChoice("stmt", 5)
+		kind = ndChoice("stmt", g.nStmts)
 	}
 	switch kind {
 	case 0:
@@ -135,7 +136,7 @@ func (g *c20Gen) stmt(depth, indent int, ynil bool) bool {
 }
 
 func Harness_C20_K1() {
-	g := &c20Gen{xnil: ndBool("x_is_nil"), nConds: ndParam("CONDS", 7), nResults: ndParam("RESULTS", 5)}
+	g := &c20Gen{xnil: ndBool("x_is_nil"), nConds: ndParam("CONDS", 7), nResults: ndParam("RESULTS", 5), nStmts: ndParam("STMTKINDS", 5)}
 	depth := ndParam("DEPTH", 2)
 	g.line(0, "package p")
 	g.line(0, "")
